@@ -900,10 +900,14 @@ pub fn c14(a: &Args) -> Ctx {
         let mut gen = Gen::new(rng.next(), &ed);
         let h = gen_history_kt(kt, &mut gen, &p, cfg, &format!("c14 shard={} i={i}", a.shard));
         let before = ctx.counters.get("batch.unsorted").copied().unwrap_or(0);
+        let keep = ctx.nontrivial.clone();
         let v = run_and_record(a, &h, &mon, &mut ctx, &format!("{i}"));
         let after = ctx.counters.get("batch.unsorted").copied().unwrap_or(0);
+        // non-trivial for this property = the history issued unsorted batches (not: took a relocation path)
+        ctx.nontrivial = keep;
+        let d = crate::util::digest64(3, h.origin.as_bytes());
+        ctx.digests.insert(d);
         if after > before {
-            let d = crate::util::digest64(3, h.origin.as_bytes());
             ctx.nontrivial.insert(d);
         }
         if v {
